@@ -196,7 +196,29 @@ def polya_cases(draw):
                         draw(st.sampled_from(["pure", "pure", "mixed", "prefix"]))))
         return out
     # degraded reads: a single short body exon that itself is mostly tail, so that *all* exons may look like tail
-    body_kind = draw(st.sampled_from(["normal", "normal", "normal", "mostly_tail", "head_meets_tail"]))
+    body_kind = draw(st.sampled_from(["normal", "normal", "normal", "mostly_tail", "head_meets_tail", "micro_chain"]))
+    if body_kind == "micro_chain":
+        # a T-rich head exon and an A-rich tail exon with 1-4 exons of a few A/T bases between them: several exons may
+        # be counted from both sides
+        seqs = [draw(st.sampled_from(["AA", "TT", "AT", "TA", "AAT", "ATT", "AATT", "A", "TTAA", "GA"]))
+                for _ in range(draw(st.integers(1, 4)))]
+        if draw(st.booleans()):
+            seqs[-1] = seqs[-1] + "A" * draw(st.integers(16, 40))     # the last small exon carries the tail itself
+            ta = []
+        else:
+            ta = [(draw(st.integers(16, 40)), draw(st.integers(50, 600)), "pure")]
+        if draw(st.booleans()):
+            seqs[0] = "T" * draw(st.integers(16, 40)) + seqs[0]
+            tt = []
+        else:
+            tt = [(draw(st.integers(16, 40)), draw(st.integers(50, 600)), "pure")]
+        body, p = [], body[0][0]
+        for q_ in seqs:
+            body.append([p, p + len(q_) - 1])
+            p += len(q_) + draw(st.integers(50, 600))
+        return {"body": body, "body_kind": "micro_chain", "body_seqs": seqs, "body_tail_frac": 1.0, "ta": ta, "tt": tt,
+                "clip_a": draw(st.sampled_from([0, 0, 0, 3, 20])), "clip_t": draw(st.sampled_from([0, 0, 0, 3, 20])),
+                "mfte": draw(st.sampled_from([0, 20, 40]))}
     if body_kind == "head_meets_tail":
         side = "both"
     if body_kind in ("mostly_tail", "head_meets_tail"):
@@ -280,6 +302,8 @@ def eval_polya(case, ctx):
         block_at[tuple(b)] = q0
         if k:
             q += seq_for(b, k, ch)
+        elif case.get("body_seqs"):
+            q += case["body_seqs"][i - len(left)]
         elif case.get("body_kind") == "head_meets_tail" and case.get("body_seq"):
             q += case["body_seq"]
         elif case.get("body_kind") == "head_meets_tail":
